@@ -34,6 +34,23 @@ Theorem C04fin_prim_preserves_inv : forall n, 2 <= NN n -> NoDup (output n) ->
   forall p s, InvC n s -> prim_pre2 n p s -> InvC n (step n p s).
 Proof. exact step_preserves_InvC2. Qed.
 Print Assumptions C04fin_prim_preserves_inv.
+(* the FULL-STRENGTH forms of C04_prim_preserves_inv_partial / C04_trace_from_fresh_tree_partial (Props/C04.v):
+   prim_pre2 has a clause for EVERY primitive of the trace alphabet -- it is prim_pre except that total_flops /
+   total_write / max_size are also admitted when they have to recompute (premise tot_pre: the traversal enumerates
+   the keys of children, all with info entries; derivable from complete_b, C04fin_complete_sound) *)
+Theorem C04_prim_preserves_inv : forall n, 2 <= NN n -> NoDup (output n) ->
+  forall p s, InvC n s -> prim_pre2 n p s -> InvC n (step n p s).
+Proof. exact step_preserves_InvC2. Qed.
+Print Assumptions C04_prim_preserves_inv.
+Theorem C04_trace_from_fresh_tree : forall n, 2 <= NN n -> NoDup (output n) ->
+  forall tr, pre_trace n (prim_pre2 n) tr (init_state n) -> InvC n (run n tr (init_state n)).
+Proof. exact trace_from_fresh_InvC2. Qed.
+Print Assumptions C04_trace_from_fresh_tree.
+(* prim_pre2 is prim_pre on every primitive other than the three totals, and weaker on those *)
+Theorem C04_prim_pre_implies_full : forall n p s, prim_pre n p s -> prim_pre2 n p s.
+Proof. exact prim_pre_pre2. Qed.
+Print Assumptions C04_prim_pre_implies_full.
+
 Theorem C04fin_precondition_checker_sound : forall n, 2 <= NN n -> NoDup (output n) ->
   forall p s, InvC n s -> prim_pre2_b n p s = true -> prim_pre2 n p s.
 Proof. exact prim_pre2_b_sound. Qed.
